@@ -230,6 +230,40 @@ def path_calls(path, pred):
     return out
 
 
+def resolve_on_path(path, upto: int, expr, depth: int = 4):
+    """expr with every local Name replaced by the value last assigned to it on this path before event `upto`
+    (plain `name = value` statements only; a name that is also augmented / unpacked / a loop target later than its last plain
+    assignment is left alone).  Returns a new expression; the original is untouched."""
+    import copy
+
+    if depth <= 0:
+        return expr
+
+    def last_def(name):
+        val = None
+        for e in path.events[:upto]:
+            if e.kind == "stmt" and isinstance(e.node, ast.Assign) and len(e.node.targets) == 1 and isinstance(e.node.targets[0], ast.Name) and e.node.targets[0].id == name:
+                val = e.node.value
+            elif e.kind == "stmt" and any(isinstance(t, ast.Name) and t.id == name and isinstance(t.ctx, ast.Store) for t in ast.walk(e.node)):
+                val = None
+            elif e.kind == "iter" and e.val[0] == "next" and any(isinstance(t, ast.Name) and t.id == name for t in ast.walk(e.node.target)):
+                val = None
+            elif e.kind == "cond" and any(isinstance(t, ast.NamedExpr) and t.target.id == name for t in ast.walk(e.node)):
+                val = None
+        return val
+
+    class _Sub(ast.NodeTransformer):
+        def visit_Name(self, n):
+            if isinstance(n.ctx, ast.Load):
+                v = last_def(n.id)
+                if v is not None and not any(isinstance(x, ast.Name) and x.id == n.id for x in ast.walk(v)):
+                    return resolve_on_path(path, upto, v, depth - 1)
+            return n
+
+    new = _Sub().visit(copy.deepcopy(expr))
+    return ast.fix_missing_locations(new)
+
+
 def is_method_call(call, attr, recv_pred=None):
     return (
         isinstance(call, ast.Call)
